@@ -87,15 +87,16 @@ type NilAnalysis struct {
 	// per-instruction state for queries
 	at map[ssa.Instruction]nilFacts
 	// numeric side (numfacts*.go)
-	cur     ssa.Instruction // instruction currently being proved (context for conditional contracts)
-	curFn   *ssa.Function
-	reSub   map[string]int
-	gLen    map[string]int64
-	gArr    map[string][3]int64
-	lenSum  map[*ssa.Function][]*lenSummary
-	fieldLo map[fieldLoKey]int
-	byName  map[*ssa.Function]map[string]ssa.Value
-	litF    map[string]bool
+	cur       ssa.Instruction // instruction currently being proved (context for conditional contracts)
+	curFn     *ssa.Function
+	curCase   *phiCase // set while a site is proved by cases on a phi
+	reSub     map[string]int
+	gLen      map[string]int64
+	gArr      map[string][3]int64
+	lenSum    map[*ssa.Function][]*lenSummary
+	fieldLo   map[fieldLoKey]int
+	byName    map[*ssa.Function]map[string]ssa.Value
+	litF      map[string]bool
 	freezeNN  bool // warm-up rounds: parameter non-nil facts are not falsified yet
 	converged bool
 }
